@@ -640,6 +640,11 @@ func (p Prop) Run(ci interface{}, focus *core.Violation) *core.Outcome {
 	sr := base.sr
 	h0 := core.Hash(sr.TraceHashParts()...)
 	out.TraceHash = h0
+	if v := sr.HungViolation(); v != nil {
+		v.Key += "|no_fault"
+		out.Report(v, focus, h0)
+		return out
+	}
 	if len(sr.Hooks) > 0 {
 		out.Hashes = append(out.Hashes, h0)
 	}
@@ -699,6 +704,14 @@ func (p Prop) Run(ci interface{}, focus *core.Violation) *core.Outcome {
 			return out
 		}
 		out.Runs++
+		if v := x.sr.HungViolation(); v != nil {
+			v.Key += "|" + f.Short()
+			v.Detail = fmt.Sprintf("with [%s]: %s", f, v.Detail)
+			if out.Report(v, focus, ops.FaultedHash(h0, f.String(), x.sr)) {
+				c.Only = []ops.Fault{*f}
+			}
+			return out
+		}
 		h := ops.FaultedHash(h0, f.String(), x.sr)
 		if !seen[h] {
 			seen[h] = true
